@@ -209,6 +209,9 @@ class Check:
 def main(argv=None):
     import argparse
     import importlib
+    import warnings
+
+    warnings.filterwarnings("ignore")
 
     ap = argparse.ArgumentParser()
     ap.add_argument("prop")
